@@ -68,6 +68,9 @@ def generate(rng, tier, idx):
         if rng.random() < 0.5:
             rng.shuffle(hs)
         sc['hashes'] = hs
+    if rng.random() < 0.25:
+        # the file changed size between fstat() and the read: the reported size hint is off, the content is what is read
+        sc['fstat_skew'] = rng.choice([-1, 1, -(n // 2), 100, n, 65536, -65536])
     if n > 70000 and sc['chunks'] in ('tiny', 1, 3):
         sc['chunks'] = 'mixed'
     return sc
@@ -147,8 +150,10 @@ def execute(sc):
     with World(sc) as w:
         w.put({'p': 'f', 'k': 'file', **sc['content']})
         path = w.path('f')
+        skew = sc.get('fstat_skew')
         seam = Seam(w.root, order_key=sc['order_key'], read_chunks=sc['chunks'],
-                    zero_size=['f'] if sc.get('zero_size') else None)
+                    zero_size=['f'] if sc.get('zero_size') else None,
+                    size_override=({'f': max(1, n + skew)} if (skew and api == 'metadata' and not sc.get('zero_size')) else None))
         extra_short = 0
         with seam:
             if api in ('hash_file', 'hash_file_read1'):
@@ -206,7 +211,7 @@ def execute(sc):
                     if sums != exp:
                         violations.append(viol('hash.digest', 'get_file_metadata digests differ for %s len %d' % (sc['hashes'], n),
                                                sig=','.join(k for k in exp if sums.get(k) != exp[k])))
-                    if not sc.get('zero_size') and vals[3] != n:
+                    if not sc.get('zero_size') and not skew and vals[3] != n:
                         violations.append(viol('hash.size', 'st_size %r != %d' % (vals[3], n)))
             elif api == 'verify':
                 exp = expected(content, sc['hashes'])
